@@ -1,4 +1,5 @@
-CONSTANT Atomic = TRUE
+CONSTANTS Atomic = TRUE
+  Trunc = TRUE
 SPECIFICATION Spec
 INVARIANTS C18_AllOrNothing C18_SavedWhenDone
 CHECK_DEADLOCK FALSE
